@@ -7,7 +7,7 @@ import re
 import warnings
 
 from vf import cimgen
-from vf.fingerprint import fp, diff
+from vf.fingerprint import fp, diff, crnorm
 from vf.reach import Reach, CIMIntInvariant
 from vf.runner import h64, short, exc_key
 
@@ -176,17 +176,6 @@ def classify(d):
         return 'roundtrip.type-changed.%s-to-%s' % (va[0], vb[0])
     tail = where.rsplit('/', 1)[-1] or where
     return 'roundtrip.diff@%s' % tail
-
-
-def crnorm(x):
-    """The fingerprint with XML line-end normalisation applied to every
-    string value (what any XML parser does to a literal CR)."""
-    if isinstance(x, tuple):
-        if len(x) == 2 and x[0] in ('str', 'Char16') and \
-                isinstance(x[1], str):
-            return (x[0], x[1].replace('\r\n', '\n').replace('\r', '\n'))
-        return tuple(crnorm(i) for i in x)
-    return x
 
 
 KINDNAMES = {'CIMInstanceName', 'CIMClassName', 'CIMInstance', 'CIMClass',
